@@ -392,6 +392,7 @@ pub fn evaluate(sc_cfg: &Config, defs: &[Def], world: &mut World, plan: &EvalPla
 
     let mut st = DriverState {
         fail_started: &plan.fail_started,
+        fail_validated_eph: plan.fail_validated_eph,
         gv: &gv,
         live: &live,
         cfg: sc_cfg,
@@ -758,6 +759,7 @@ pub fn evaluate(sc_cfg: &Config, defs: &[Def], world: &mut World, plan: &EvalPla
 
 struct DriverState<'a> {
     fail_started: &'a BTreeMap<u32, Leave>,
+    fail_validated_eph: Option<Leave>,
     gv: &'a GraphView,
     live: &'a [bool],
     cfg: &'a Config,
@@ -875,9 +877,16 @@ impl<'a> DriverState<'a> {
                 out.consumed_at_start.insert((j, *u), x);
             }
         }
+        let mut injected = self.fail_started.get(&ordinal).copied();
+        if injected.is_none() && self.fail_validated_eph.is_some() && gv.jobs[j].kind == Kind::Ephemeral {
+            let snap = eng.snapshot();
+            if snap.jobs.iter().any(|x| x.job_id == gv.jobs[j].id && x.state.code == vs::ST_RUNNING && x.state.vs == 1) {
+                injected = self.fail_validated_eph;
+            }
+        }
         self.running.push(RunInfo {
             job: j,
-            injected: self.fail_started.get(&ordinal).copied(),
+            injected,
             seq: self.seq,
             finish_time: self.clock + dur,
             inputs,
